@@ -82,7 +82,7 @@ def confirm(srcdir, slot):
     res["demo_passes_without_patch"] = all(("FAILED" not in o and "error" not in o and " passed" in o) for o in without)
     res["demo_output_with"] = [o.strip() for o in with_p]; res["demo_output_without"] = [o.strip() for o in without]
     os.unlink(os.path.join(repo, "tests", "demo.rs"))
-    sh(["git", "checkout", "--", "."], cwd=repo)
+    sh(["git", "checkout", "--", "."], cwd=repo); sh(["git", "clean", "-fdq", "tests", "src"], cwd=repo)
     res["confirmed"] = all(res.get(k) for k in ("applies", "builds", "suite_passes_with_patch", "demo_fails_with_patch", "demo_passes_without_patch"))
     return res
 
@@ -91,7 +91,7 @@ def evaluate(seed_id, slot, props=None, tier="quick"):
     repo = os.path.join(d, "repo")
     sd = os.path.join(SEEDED, seed_id)
     meta = json.load(open(os.path.join(sd, "meta.json")))
-    sh(["git", "checkout", "--", "."], cwd=repo)
+    sh(["git", "checkout", "--", "."], cwd=repo); sh(["git", "clean", "-fdq", "tests", "src"], cwd=repo)
     rc, out = sh(["git", "apply", os.path.join(sd, "patch.diff")], cwd=repo)
     if rc != 0:
         return {"error": "patch does not apply: " + out[-300:]}
@@ -104,7 +104,7 @@ def evaluate(seed_id, slot, props=None, tier="quick"):
         rc, out = sh([os.path.join(VERIF, "check"), p, "--tier", tier], cwd=VERIF, env=env, timeout=3600)
         sigs = sorted(set(re.findall(r"signature: (.*?) \(", out)))
         results[p] = {"exit": rc, "signatures": sigs[:12], "inconclusive": re.findall(r"INCONCLUSIVE.*", out)[:3], "wall_s": round(time.time() - t0, 1)}
-    sh(["git", "checkout", "--", "."], cwd=repo)
+    sh(["git", "checkout", "--", "."], cwd=repo); sh(["git", "clean", "-fdq", "tests", "src"], cwd=repo)
     return results
 
 def main():
